@@ -334,6 +334,17 @@ class Esc:
 
         def call_targets(c):
             f = c.func
+            if isinstance(f, (ast.IfExp, ast.BoolOp)):
+                # `(a if t else b)(...)` / `(a or b)(...)`: any alternative may be the callee
+                alts = [f.body, f.orelse] if isinstance(f, ast.IfExp) else list(f.values)
+                qs, exts = [], []
+                for a_ in alts:
+                    q1, e1 = call_targets(ast.copy_location(ast.Call(func=a_, args=c.args, keywords=c.keywords), c))
+                    qs += [x for x in q1 if x not in qs]
+                    if e1:
+                        exts.append(e1)
+                bad = [e for e in exts if e.startswith('unresolved')]
+                return qs, (bad[0] if bad else (exts[0] if exts else None))
             r = P.resolve(m, f)
             if r:
                 if r[0] in ('func', 'method'):
